@@ -385,14 +385,17 @@ impl Core {
         query: &IterativeQuery,
     ) -> Option<SocketAddrV4> {
         if let Some(new_address) = query.best_address() {
-            self.public_address = Some(new_address);
-
             if self.public_address.is_none()
                 || new_address
                     != self
                         .public_address
                         .expect("self.public_address is not None")
             {
+                // Remember the alleged address only after comparing it with the previous one,
+                // otherwise the comparison can never see a change and the address is never
+                // confirmed with a self ping.
+                self.public_address = Some(new_address);
+
                 trace!(
                     ?new_address,
                     "Query responses suggest a different public_address, trying to confirm.."
